@@ -67,6 +67,7 @@ type KOpts struct {
 	SetTarget   bool // same-package: still set target_package_name explicitly
 	NoExclude   bool
 	NoCustom    bool
+	NoDep       bool // never move declarations into an imported file
 	NoInjected  bool
 	OnlyCLI     bool // C16: restrict to the nine two-channel options
 	CustomRich  bool // C17: custom_types entries are frequent
@@ -77,7 +78,7 @@ type KOpts struct {
 func nonEmpty(f *ir.File) []string {
 	var out []string
 	for _, m := range f.Messages {
-		if len(m.Fields) > 0 {
+		if len(m.Fields) > 0 && !m.InDep {
 			out = append(out, m.Name)
 		}
 	}
@@ -131,6 +132,63 @@ func refDepth(f *ir.File, name string, guard int) int {
 	return d
 }
 
+// SplitDep moves some declarations into an imported file of the same package (ir.Message.InDep): real .proto trees
+// spread their messages over several files, and a selected type may reach messages the generated file does not
+// declare. The moved set is closed under references (an imported file cannot refer back) and never holds a
+// selected type.
+func SplitDep(t *rapid.T, f *ir.File, types []string) {
+	var closure func(name string, acc map[string]bool) bool
+	closure = func(name string, acc map[string]bool) bool {
+		if acc[name] {
+			return true
+		}
+		if ir.Has(types, name) {
+			return false
+		}
+		m := f.Msg(name)
+		if m == nil {
+			return false
+		}
+		acc[name] = true
+		for _, fl := range m.Fields {
+			if fl.Kind == ir.KMessage && !closure(fl.Type, acc) {
+				return false
+			}
+		}
+		return true
+	}
+	moved := map[string]bool{}
+	for i, m := range f.Messages {
+		if ir.Has(types, m.Name) || moved[m.Name] || rapid.IntRange(0, 2).Draw(t, fmt.Sprintf("dep%d", i)) == 0 {
+			continue
+		}
+		acc := map[string]bool{}
+		if closure(m.Name, acc) {
+			for k := range acc {
+				moved[k] = true
+			}
+		}
+	}
+	enums := map[string]bool{}
+	for _, m := range f.Messages {
+		if !moved[m.Name] {
+			continue
+		}
+		m.InDep = true
+		for _, fl := range m.Fields {
+			if fl.Kind == ir.KEnum {
+				enums[fl.Type] = true
+			}
+		}
+	}
+	for i, e := range f.Enums {
+		// enums the moved messages use must move; others may
+		if enums[e.Name] || (len(moved) > 0 && rapid.IntRange(0, 3).Draw(t, fmt.Sprintf("depenum%d", i)) == 0) {
+			e.InDep = true
+		}
+	}
+}
+
 // Rebase returns a copy of c with the package options of layout l.
 func Rebase(c *ir.Config, l *ir.Layout, setTarget bool) *ir.Config {
 	out := ir.Clone(c)
@@ -179,6 +237,9 @@ func Config(t *rapid.T, f *ir.File, l *ir.Layout, o KOpts) *ir.Config {
 	} else {
 		c.Types = DrawTypes(t, f, o.ManyTypes)
 	}
+	if !o.NoDep && !f.HasDep() && rapid.IntRange(0, 3).Draw(t, "splitdep") == 0 {
+		SplitDep(t, f, c.Types)
+	}
 	if o.Sort != nil {
 		c.Sort = *o.Sort
 	} else {
@@ -206,6 +267,10 @@ func Config(t *rapid.T, f *ir.File, l *ir.Layout, o KOpts) *ir.Config {
 	return c
 }
 
+// listLens: lengths of validator / plan-modifier lists. Mostly one to three entries, now and then a long list (code that
+// treats long lists differently - de-duplication through a map, chunking - only shows with more than a handful).
+var listLens = []int{1, 1, 1, 2, 2, 2, 3, 3, 1, 2, 3, 9, 12, 17}
+
 // FieldOptions draws the field-addressed options into c.
 func FieldOptions(t *rapid.T, f *ir.File, c *ir.Config, o KOpts) {
 	occ := model.Occurrences(f, c.Types)
@@ -217,6 +282,9 @@ func FieldOptions(t *rapid.T, f *ir.File, c *ir.Config, o KOpts) {
 		p = 2
 	}
 	key := func(oc model.Occurrence, label string) string {
+		if oc.EmbedKey != "" && !oc.Embed && rapid.IntRange(0, 2).Draw(t, label+".embedkey") == 0 {
+			return oc.EmbedKey // the promoted field addressed through the embedding message
+		}
 		if oc.FullKey != "" && (oc.FullKey == oc.TypeKey || rapid.Bool().Draw(t, label+".full")) {
 			return oc.FullKey
 		}
@@ -225,7 +293,7 @@ func FieldOptions(t *rapid.T, f *ir.File, c *ir.Config, o KOpts) {
 	// exclusions: never all fields of a message
 	excludedPerMsg := map[string]map[string]bool{}
 	isExcluded := func(oc model.Occurrence) bool {
-		return ir.Has(c.ExcludeFields, oc.TypeKey) || (oc.FullKey != "" && ir.Has(c.ExcludeFields, oc.FullKey))
+		return ir.Has(c.ExcludeFields, oc.TypeKey) || (oc.FullKey != "" && ir.Has(c.ExcludeFields, oc.FullKey)) || (oc.EmbedKey != "" && ir.Has(c.ExcludeFields, oc.EmbedKey))
 	}
 	if !o.NoExclude {
 		for i, oc := range occ {
@@ -272,7 +340,7 @@ func FieldOptions(t *rapid.T, f *ir.File, c *ir.Config, o KOpts) {
 	}
 	// map-valued options: at most one applicable key per occurrence
 	taken := func(m interface{ has(string) bool }, oc model.Occurrence) bool {
-		return m.has(oc.TypeKey) || (oc.FullKey != "" && m.has(oc.FullKey))
+		return m.has(oc.TypeKey) || (oc.FullKey != "" && m.has(oc.FullKey)) || (oc.EmbedKey != "" && m.has(oc.EmbedKey))
 	}
 	// name overrides
 	ovr := 0
@@ -297,21 +365,21 @@ func FieldOptions(t *rapid.T, f *ir.File, c *ir.Config, o KOpts) {
 			continue
 		}
 		if !taken(listMap(c.Validators), oc) && rapid.IntRange(0, p).Draw(t, fmt.Sprintf("val%d", i)) == 0 {
-			n := rapid.IntRange(1, 3).Draw(t, "nval")
+			n := rapid.SampledFrom(listLens).Draw(t, "nval")
 			var l []string
 			for j := 0; j < n; j++ {
-				l = append(l, fmt.Sprintf("%s.V(%d)", SupportPath, rapid.IntRange(1, 9).Draw(t, "vid")))
+				l = append(l, fmt.Sprintf("%s.V(%d)", SupportPath, rapid.IntRange(1, 9+n).Draw(t, "vid")))
 			}
 			c.Validators[key(oc, "valkey")] = l
 		}
 		if !taken(listMap(c.PlanModifiers), oc) && rapid.IntRange(0, p).Draw(t, fmt.Sprintf("pm%d", i)) == 0 {
-			n := rapid.IntRange(1, 3).Draw(t, "npm")
+			n := rapid.SampledFrom(listLens).Draw(t, "npm")
 			var l []string
 			for j := 0; j < n; j++ {
 				if rapid.IntRange(0, 3).Draw(t, "pmrr") == 0 {
 					l = append(l, "github.com/hashicorp/terraform-plugin-framework/tfsdk.RequiresReplace()")
 				} else {
-					l = append(l, fmt.Sprintf("%s.PM(%d)", SupportPath, rapid.IntRange(1, 9).Draw(t, "pmid")))
+					l = append(l, fmt.Sprintf("%s.PM(%d)", SupportPath, rapid.IntRange(1, 9+n).Draw(t, "pmid")))
 				}
 			}
 			c.PlanModifiers[key(oc, "pmkey")] = l
